@@ -175,6 +175,14 @@ def run_arith(case, ctx):
     r = op(L, 2)
     if list(r.column_names()) != list(ln):
         return ctx.fail("table-scalar-names", f"{ln} {case['op']} 2 -> {r.column_names()}")
+    # the scalar on the left (2 + t, 2 - t, 7 // t ...) is table-with-scalar arithmetic all the same
+    ctx.ev()
+    try:
+        r = op(3, L)
+    except Exception as e:  # noqa: BLE001
+        return ctx.fail(f"scalar-table/raised/{type(e).__name__}", f"3 {case['op']} table {ln}: {e}")
+    if isinstance(r, S.Table) and list(r.column_names()) != list(ln):
+        return ctx.fail("scalar-table-names", f"3 {case['op']} {ln} -> {r.column_names()}")
     ctx.ev()
     r = op(L, Rt)
     want = [l if (x is None or x == l) else None for l, x in zip(ln, rn)]
